@@ -11,13 +11,15 @@ Quantification.  `Hist c ls s`: `s` is the state after the label sequence `ls` f
 of the configuration `c` (any `max_threads ≥ 1`, eager / LAZY / DETACHED in any combination).  A label
 sequence is an arbitrary interleaving, at the granularity of lock / condition / thread primitives and
 shared-memory accesses, of: thread 0 (`m_thpool_new`, later `m_thpool_free`), any number of submitter
-threads each issuing any number of `m_thpool_add` calls, and the pool workers — including spurious
+threads each issuing any number of `m_thpool_add` calls, and the pool workers — whose tasks may themselves call
+`m_thpool_add` on the pool they run on, at any time, also while `m_thpool_free` is in progress — including spurious
 wake-ups, the choice of the waiter a signal wakes, and `pthread_create` failures.  Nothing bounds the
 number of threads or tasks.
 
 Precondition (`okRun`, part of `Hist`; decidable on label sequences): the handle is live for every
-`m_thpool_add` (`m_thpool_new` has returned, `m_thpool_free` has not been called) and
-`m_thpool_free` is called when no `m_thpool_add` is in progress.
+`m_thpool_add` of a submitter thread (`m_thpool_new` has returned, `m_thpool_free` has not been called) and
+`m_thpool_free` is called when no `m_thpool_add` of a submitter thread is in progress.  Submissions made by tasks have
+no precondition: a running task keeps its pool alive.
 
 What is *not* here: liveness beyond deadlock freedom (that every fair schedule terminates).
 -/
@@ -78,7 +80,7 @@ theorem C06_bounded_parallelism (hc : 0 < c.maxThreads) (h : Hist c ls s) :
     intro u hu
     obtain ⟨k, hk, rfl⟩ := List.mem_map.mp hu
     have := (hi.runningInv k (hrun k hk).1 (hrun k hk).2).1
-    exact (hi.workersIff _).mpr (by simp [this])
+    exact (hi.workersIff _).mpr (inTask_isW _ this)
   have := List.Nodup.length_le_of_subset hnd hsub
   simp only [List.length_map] at this
   omega
@@ -88,8 +90,8 @@ theorem C06_bounded_parallelism (hc : 0 < c.maxThreads) (h : Hist c ls s) :
 /-- program counters at which `pool->tasks`, `pool->threads`, `pool->shutdown` or `pool->alive` is
 read or written by code that runs under the pool mutex -/
 def lockedAccess : Pc → Bool
-  | .wLoop | .wBreakChk | .wBreakLen | .wDequeue | .wExitDec | .sLazy1 | .sLazy2 | .sInsert | .sEnq
-  | .fSetShut | .fAliveChk => true
+  | .wLoop | .wBreakChk | .wBreakLen | .wDequeue | .wExitDec | .sShutChk | .sLazy1 | .sLazy2 | .sInsert | .sEnq
+  | .nShutChk | .nLazy1 | .nLazy2 | .nInsert | .nEnq | .fSetShut | .fAliveChk => true
   | _ => false
 
 /-- Every such access happens while the accessing thread owns the mutex, and the mutex has at most
@@ -106,13 +108,14 @@ theorem C06_mutual_exclusion (hc : 0 < c.maxThreads) (h : Hist c ls s) :
 
 /-- The accesses that are *not* under the mutex are exclusive for another reason: nobody else can be
 at a conflicting access at the same time.
-* the unlocked read of `shutdown` in `M_THREADS_ASSERT` (`m_thpool_add`): `shutdown` is not being written;
+* (`m_thpool_add` reads `shutdown` with the lock held since D-06d: that access is covered by `C06_mutual_exclusion`;
+  the first clause below now says that while `shutdown` is being written no submitter is anywhere inside `m_thpool_add`)
 * `m_thpool_new` inserting into `threads` / incrementing `alive`: no `m_thpool_add` is running and no worker
   is at `alive--`;
 * `wait_pool` iterating over `threads`, `m_list_free(threads)`: no `m_thpool_add` is running;
 * `m_queue_free(tasks)`: no `m_thpool_add` is running and every worker has made its last pool access. -/
 theorem C06_unlocked_accesses_exclusive (hc : 0 < c.maxThreads) (h : Hist c ls s) :
-    (∀ u, s.pc u = .sAssert → s.pc 0 ≠ .fSetShut) ∧
+    (∀ u, isS (s.pc u) = true → s.pc 0 ≠ .fSetShut) ∧
     (s.pc 0 = .mNewInsert → ∀ u, isS (s.pc u) = false ∧ s.pc u ≠ .wExitDec) ∧
     ((s.pc 0 = .fJoinInit ∨ s.pc 0 = .fJoin ∨ s.pc 0 = .fListFree) → ∀ u, isS (s.pc u) = false) ∧
     (s.pc 0 = .fQueueFree → ∀ u, isS (s.pc u) = false ∧ (isW (s.pc u) = true → gone (s.pc u) = true)) := by
@@ -124,8 +127,30 @@ theorem C06_unlocked_accesses_exclusive (hc : 0 < c.maxThreads) (h : Hist c ls s
   refine ⟨fun u hu h0 => ?_, fun h0 u => ⟨noS (by simp [h0]) u, fun hu => ?_⟩,
           fun h0 => noS (by rcases h0 with h0 | h0 | h0 <;> simp [h0]),
           fun h0 u => ⟨noS (by simp [h0]) u, hi.goneAll (Or.inl (by simp [h0])) u⟩⟩
-  · have := hi.liveHandle u (by simp [hu]); rw [this] at h0; cases h0
+  · have := hi.liveHandle u hu; rw [this] at h0; cases h0
   · exact hi.exitShut u (by simp [hu]) (hi.shutNo (by simp [h0]))
+
+/-- **Submission and shutdown exclude each other** (D-06d).  `m_thpool_add` checks `shutdown` with the lock held; as long as
+a submission — by a submitter thread or by a task running on the pool — is between that check and its unlock, `shutdown` is
+`NO` and thread 0 has not got beyond the statement that writes it.  Hence once `wait_pool` has set `shutdown`
+(`5 ≤ ph`), nobody inserts into `pool->threads` or into the task queue any more: the unlocked iteration over `threads`
+and the frees that follow cannot race with a late submission, and no worker is created that `wait_pool` would not join. -/
+theorem C06_add_excludes_shutdown (hc : 0 < c.maxThreads) (h : Hist c ls s) :
+    (∀ u, pastChk (s.pc u) = true → s.shutdown = .no ∧ ph (s.pc 0) ≤ 4) ∧
+    (5 ≤ ph (s.pc 0) → ∀ u, pastChk (s.pc u) = false) := by
+  have hi := hist_inv hc h
+  refine ⟨fun u hu => ⟨hi.pastChkNo u hu, ph_of_pastChk hi u hu⟩, fun h5 u => ?_⟩
+  cases hp : pastChk (s.pc u) with
+  | false => rfl
+  | true => have := ph_of_pastChk hi u hp; omega
+
+/-- A task may submit to the pool it runs on at any time.  When its check finds the pool shutting down, the call unlocks and
+returns -EPERM into the task; queue, thread list and worker set are untouched. -/
+theorem C06_task_submission_refused_during_shutdown (s : State) (t : Tid) (hp : s.pc t = .nShutChk) (hs : s.shutdown ≠ .no) :
+    ∃ s1 s2 s3, step s ⟨t, .tau⟩ = some s1 ∧ step s1 ⟨t, .unlock⟩ = some s2 ∧ step s2 ⟨t, .addRet EPERM⟩ = some s3 ∧
+      s3.pc t = .wInTask ∧ s3.tasks = s.tasks ∧ s3.threads = s.threads ∧ s3.workers = s.workers ∧ s3.alive = s.alive := by
+  refine ⟨_, _, _, by simp [step, hp, hs]; rfl, by simp [step, State.goto]; rfl, by simp [step, State.goto]; rfl, ?_⟩
+  simp [State.goto]
 
 /-! ## `m_thpool_free` returns only when the work is done -/
 
@@ -156,8 +181,8 @@ theorem C06_free_wait_all (hc : 0 < c.maxThreads) (h : Hist c ls s)
   | false =>
     exfalso
     have hr := (hi.runningInv k hstarted hf).1
-    have := hgone (s.task k).runner (by simp [hr])
-    simp [hr] at this
+    have := hgone (s.task k).runner (inTask_isW _ hr)
+    rw [inTask_not_gone _ hr] at this; cases this
 
 /-- `free(wait_all = false)`: at its return point every task that had started has completed, and
 every accepted task that had not started has been discarded without ever having run. -/
@@ -174,8 +199,8 @@ theorem C06_free_wait_curr (hc : 0 < c.maxThreads) (h : Hist c ls s)
     | false =>
       exfalso
       have hr := (hi.runningInv k hs hf).1
-      have := hgone (s.task k).runner (by simp [hr])
-      simp [hr] at this
+      have := hgone (s.task k).runner (inTask_isW _ hr)
+      rw [inTask_not_gone _ hr] at this; cases this
   · cases hd : (s.task k).discarded with
     | true => rfl
     | false =>
@@ -247,21 +272,31 @@ theorem C06_dequeue_nonempty (hc : 0 < c.maxThreads) (h : Hist c ls s) (u : Tid)
 /-- eager pool, 2 workers, one submitter; the first worker runs (and is woken spuriously three times)
 while `m_thpool_new` is still creating the second one; `free(wait_all)` -/
 def demoEager : List Label :=
-  [⟨0, .create 1⟩, ⟨1, .lock⟩, ⟨1, .qlen 0⟩, ⟨1, .wait⟩, ⟨0, .tins 1⟩, ⟨0, .create 2⟩, ⟨1, .spurious⟩, ⟨1, .reacq⟩, ⟨1, .qlen 0⟩, ⟨1, .wait⟩, ⟨1, .spurious⟩, ⟨1, .reacq⟩, ⟨1, .qlen 0⟩, ⟨1, .wait⟩, ⟨1, .spurious⟩, ⟨1, .reacq⟩, ⟨1, .qlen 0⟩, ⟨0, .tins 2⟩, ⟨1, .wait⟩, ⟨0, .newRet true⟩, ⟨2, .lock⟩, ⟨3, .addCall 0 5⟩, ⟨3, .tau⟩, ⟨2, .qlen 0⟩, ⟨2, .wait⟩, ⟨3, .lock⟩, ⟨3, .enq 0⟩, ⟨3, .signal (some 1)⟩, ⟨3, .unlock⟩, ⟨3, .addRet 0⟩, ⟨1, .reacq⟩, ⟨0, .freeCall true⟩, ⟨1, .qlen 1⟩, ⟨1, .tau⟩, ⟨1, .deq 0⟩, ⟨1, .unlock⟩, ⟨1, .tau⟩, ⟨0, .lock⟩, ⟨0, .tau⟩, ⟨0, .broadcast⟩, ⟨0, .unlock⟩, ⟨0, .tau⟩, ⟨1, .taskStart 0 5⟩, ⟨2, .reacq⟩, ⟨2, .qlen 0⟩, ⟨2, .tau⟩, ⟨2, .qlen 0⟩, ⟨2, .tau⟩, ⟨2, .unlock⟩, ⟨2, .exit⟩, ⟨1, .taskEnd 0⟩, ⟨1, .tau⟩, ⟨1, .lock⟩, ⟨1, .qlen 0⟩, ⟨1, .tau⟩, ⟨1, .qlen 0⟩, ⟨1, .tau⟩, ⟨1, .unlock⟩, ⟨0, .join 2⟩, ⟨1, .exit⟩, ⟨0, .join 1⟩, ⟨0, .tau⟩, ⟨0, .destroyCond⟩, ⟨0, .destroyMutex⟩, ⟨0, .qfree []⟩, ⟨0, .tfree⟩, ⟨0, .freePool⟩, ⟨0, .freeRet⟩]
+  [⟨0, .create 1⟩, ⟨1, .lock⟩, ⟨1, .qlen 0⟩, ⟨1, .wait⟩, ⟨0, .tins 1⟩, ⟨0, .create 2⟩, ⟨1, .spurious⟩, ⟨1, .reacq⟩, ⟨1, .qlen 0⟩, ⟨1, .wait⟩, ⟨1, .spurious⟩, ⟨1, .reacq⟩, ⟨1, .qlen 0⟩, ⟨1, .wait⟩, ⟨1, .spurious⟩, ⟨1, .reacq⟩, ⟨1, .qlen 0⟩, ⟨0, .tins 2⟩, ⟨1, .wait⟩, ⟨0, .newRet true⟩, ⟨2, .lock⟩, ⟨3, .addCall 0 5⟩, ⟨2, .qlen 0⟩, ⟨2, .wait⟩, ⟨3, .lock⟩, ⟨3, .tau⟩, ⟨3, .enq 0⟩, ⟨3, .signal (some 1)⟩, ⟨3, .unlock⟩, ⟨3, .addRet 0⟩, ⟨1, .reacq⟩, ⟨0, .freeCall true⟩, ⟨1, .qlen 1⟩, ⟨1, .tau⟩, ⟨1, .deq 0⟩, ⟨1, .unlock⟩, ⟨1, .tau⟩, ⟨0, .lock⟩, ⟨0, .tau⟩, ⟨0, .broadcast⟩, ⟨0, .unlock⟩, ⟨0, .tau⟩, ⟨1, .taskStart 0 5⟩, ⟨2, .reacq⟩, ⟨2, .qlen 0⟩, ⟨2, .tau⟩, ⟨2, .qlen 0⟩, ⟨2, .tau⟩, ⟨2, .unlock⟩, ⟨2, .exit⟩, ⟨1, .taskEnd 0⟩, ⟨1, .tau⟩, ⟨1, .lock⟩, ⟨1, .qlen 0⟩, ⟨1, .tau⟩, ⟨1, .qlen 0⟩, ⟨1, .tau⟩, ⟨1, .unlock⟩, ⟨0, .join 2⟩, ⟨1, .exit⟩, ⟨0, .join 1⟩, ⟨0, .tau⟩, ⟨0, .destroyCond⟩, ⟨0, .destroyMutex⟩, ⟨0, .qfree []⟩, ⟨0, .tfree⟩, ⟨0, .freePool⟩, ⟨0, .freeRet⟩]
 
 /-- LAZY + DETACHED pool, two submitters racing, two workers created inside `m_thpool_add`;
 `free(!wait_all)` waits for the detached workers on the condition variable and discards task 1 -/
 def demoLazyDetached : List Label :=
-  [⟨0, .newRet true⟩, ⟨2, .addCall 2 7⟩, ⟨2, .tau⟩, ⟨1, .addCall 0 5⟩, ⟨1, .tau⟩, ⟨2, .lock⟩, ⟨2, .tau⟩, ⟨2, .tlen 0⟩, ⟨2, .tlen 0⟩, ⟨2, .create 3⟩, ⟨2, .tins 3⟩, ⟨2, .enq 2⟩, ⟨2, .signal none⟩, ⟨2, .unlock⟩, ⟨1, .lock⟩, ⟨1, .tau⟩, ⟨2, .addRet 0⟩, ⟨1, .tlen 1⟩, ⟨1, .enq 0⟩, ⟨1, .signal none⟩, ⟨1, .unlock⟩, ⟨1, .addRet 0⟩, ⟨1, .addCall 1 6⟩, ⟨1, .tau⟩, ⟨3, .lock⟩, ⟨3, .qlen 2⟩, ⟨3, .tau⟩, ⟨3, .deq 2⟩, ⟨3, .unlock⟩, ⟨3, .tau⟩, ⟨3, .taskStart 2 7⟩, ⟨1, .lock⟩, ⟨1, .tau⟩, ⟨3, .taskEnd 2⟩, ⟨3, .tau⟩, ⟨1, .tlen 1⟩, ⟨1, .tlen 1⟩, ⟨1, .create 4⟩, ⟨1, .tins 4⟩, ⟨1, .enq 1⟩, ⟨1, .signal none⟩, ⟨1, .unlock⟩, ⟨4, .lock⟩, ⟨4, .qlen 2⟩, ⟨4, .tau⟩, ⟨1, .addRet 0⟩, ⟨4, .deq 0⟩, ⟨0, .freeCall false⟩, ⟨4, .unlock⟩, ⟨4, .tau⟩, ⟨4, .taskStart 0 5⟩, ⟨4, .taskEnd 0⟩, ⟨4, .tau⟩, ⟨0, .lock⟩, ⟨0, .tau⟩, ⟨0, .broadcast⟩, ⟨0, .tau⟩, ⟨0, .wait⟩, ⟨3, .lock⟩, ⟨3, .qlen 1⟩, ⟨3, .tau⟩, ⟨3, .tau⟩, ⟨3, .broadcast⟩, ⟨3, .unlock⟩, ⟨4, .lock⟩, ⟨3, .exit⟩, ⟨4, .qlen 1⟩, ⟨4, .tau⟩, ⟨4, .tau⟩, ⟨4, .broadcast⟩, ⟨4, .unlock⟩, ⟨4, .exit⟩, ⟨0, .reacq⟩, ⟨0, .tau⟩, ⟨0, .unlock⟩, ⟨0, .destroyCond⟩, ⟨0, .destroyMutex⟩, ⟨0, .qfree [1]⟩, ⟨0, .tfree⟩, ⟨0, .freePool⟩, ⟨0, .freeRet⟩]
+  [⟨0, .newRet true⟩, ⟨2, .addCall 2 7⟩, ⟨1, .addCall 0 5⟩, ⟨2, .lock⟩, ⟨2, .tau⟩, ⟨2, .tau⟩, ⟨2, .tlen 0⟩, ⟨2, .tlen 0⟩, ⟨2, .create 3⟩, ⟨2, .tins 3⟩, ⟨2, .enq 2⟩, ⟨2, .signal none⟩, ⟨2, .unlock⟩, ⟨1, .lock⟩, ⟨1, .tau⟩, ⟨1, .tau⟩, ⟨2, .addRet 0⟩, ⟨1, .tlen 1⟩, ⟨1, .enq 0⟩, ⟨1, .signal none⟩, ⟨1, .unlock⟩, ⟨1, .addRet 0⟩, ⟨1, .addCall 1 6⟩, ⟨3, .lock⟩, ⟨3, .qlen 2⟩, ⟨3, .tau⟩, ⟨3, .deq 2⟩, ⟨3, .unlock⟩, ⟨3, .tau⟩, ⟨3, .taskStart 2 7⟩, ⟨1, .lock⟩, ⟨1, .tau⟩, ⟨1, .tau⟩, ⟨3, .taskEnd 2⟩, ⟨3, .tau⟩, ⟨1, .tlen 1⟩, ⟨1, .tlen 1⟩, ⟨1, .create 4⟩, ⟨1, .tins 4⟩, ⟨1, .enq 1⟩, ⟨1, .signal none⟩, ⟨1, .unlock⟩, ⟨4, .lock⟩, ⟨4, .qlen 2⟩, ⟨4, .tau⟩, ⟨1, .addRet 0⟩, ⟨4, .deq 0⟩, ⟨0, .freeCall false⟩, ⟨4, .unlock⟩, ⟨4, .tau⟩, ⟨4, .taskStart 0 5⟩, ⟨4, .taskEnd 0⟩, ⟨4, .tau⟩, ⟨0, .lock⟩, ⟨0, .tau⟩, ⟨0, .broadcast⟩, ⟨0, .tau⟩, ⟨0, .wait⟩, ⟨3, .lock⟩, ⟨3, .qlen 1⟩, ⟨3, .tau⟩, ⟨3, .tau⟩, ⟨3, .broadcast⟩, ⟨3, .unlock⟩, ⟨4, .lock⟩, ⟨3, .exit⟩, ⟨4, .qlen 1⟩, ⟨4, .tau⟩, ⟨4, .tau⟩, ⟨4, .broadcast⟩, ⟨4, .unlock⟩, ⟨4, .exit⟩, ⟨0, .reacq⟩, ⟨0, .tau⟩, ⟨0, .unlock⟩, ⟨0, .destroyCond⟩, ⟨0, .destroyMutex⟩, ⟨0, .qfree [1]⟩, ⟨0, .tfree⟩, ⟨0, .freePool⟩, ⟨0, .freeRet⟩]
 
 /-- LAZY pool: the second `pthread_create` (inside `m_thpool_add`) fails; the call unlocks and returns the error (D-06b) -/
 def demoCreateFailAdd : List Label :=
-  [⟨0, .newRet true⟩, ⟨1, .addCall 0 5⟩, ⟨1, .tau⟩, ⟨1, .lock⟩, ⟨1, .tau⟩, ⟨1, .tlen 0⟩, ⟨1, .tlen 0⟩, ⟨1, .create 2⟩, ⟨1, .tins 2⟩, ⟨1, .enq 0⟩, ⟨1, .signal none⟩, ⟨1, .unlock⟩, ⟨2, .lock⟩, ⟨1, .addRet 0⟩, ⟨1, .addCall 1 6⟩, ⟨1, .tau⟩, ⟨2, .qlen 1⟩, ⟨2, .tau⟩, ⟨2, .deq 0⟩, ⟨2, .unlock⟩, ⟨2, .tau⟩, ⟨1, .lock⟩, ⟨1, .tau⟩, ⟨2, .taskStart 0 5⟩, ⟨2, .taskEnd 0⟩, ⟨2, .tau⟩, ⟨1, .tlen 1⟩, ⟨1, .tlen 1⟩, ⟨1, .createFail⟩, ⟨1, .unlock⟩, ⟨1, .addRet 11⟩, ⟨0, .freeCall true⟩, ⟨0, .lock⟩, ⟨0, .tau⟩, ⟨0, .broadcast⟩, ⟨0, .unlock⟩, ⟨0, .tau⟩, ⟨2, .lock⟩, ⟨2, .qlen 0⟩, ⟨2, .tau⟩, ⟨2, .qlen 0⟩, ⟨2, .tau⟩, ⟨2, .unlock⟩, ⟨2, .exit⟩, ⟨0, .join 2⟩, ⟨0, .tau⟩, ⟨0, .destroyCond⟩, ⟨0, .destroyMutex⟩, ⟨0, .qfree []⟩, ⟨0, .tfree⟩, ⟨0, .freePool⟩, ⟨0, .freeRet⟩]
+  [⟨0, .newRet true⟩, ⟨1, .addCall 0 5⟩, ⟨1, .lock⟩, ⟨1, .tau⟩, ⟨1, .tau⟩, ⟨1, .tlen 0⟩, ⟨1, .tlen 0⟩, ⟨1, .create 2⟩, ⟨1, .tins 2⟩, ⟨1, .enq 0⟩, ⟨1, .signal none⟩, ⟨1, .unlock⟩, ⟨2, .lock⟩, ⟨1, .addRet 0⟩, ⟨1, .addCall 1 6⟩, ⟨2, .qlen 1⟩, ⟨2, .tau⟩, ⟨2, .deq 0⟩, ⟨2, .unlock⟩, ⟨2, .tau⟩, ⟨1, .lock⟩, ⟨1, .tau⟩, ⟨1, .tau⟩, ⟨2, .taskStart 0 5⟩, ⟨2, .taskEnd 0⟩, ⟨2, .tau⟩, ⟨1, .tlen 1⟩, ⟨1, .tlen 1⟩, ⟨1, .createFail⟩, ⟨1, .unlock⟩, ⟨1, .addRet 11⟩, ⟨0, .freeCall true⟩, ⟨0, .lock⟩, ⟨0, .tau⟩, ⟨0, .broadcast⟩, ⟨0, .unlock⟩, ⟨0, .tau⟩, ⟨2, .lock⟩, ⟨2, .qlen 0⟩, ⟨2, .tau⟩, ⟨2, .qlen 0⟩, ⟨2, .tau⟩, ⟨2, .unlock⟩, ⟨2, .exit⟩, ⟨0, .join 2⟩, ⟨0, .tau⟩, ⟨0, .destroyCond⟩, ⟨0, .destroyMutex⟩, ⟨0, .qfree []⟩, ⟨0, .tfree⟩, ⟨0, .freePool⟩, ⟨0, .freeRet⟩]
 
 /-- eager DETACHED pool of 3: the third `pthread_create` of `m_thpool_new` fails; the two workers
 already started are shut down before the pool is destroyed (D-06c, D-06a) -/
 def demoCreateFailNew : List Label :=
   [⟨0, .create 1⟩, ⟨0, .tins 1⟩, ⟨0, .create 2⟩, ⟨0, .tins 2⟩, ⟨0, .createFail⟩, ⟨0, .lock⟩, ⟨0, .tau⟩, ⟨0, .broadcast⟩, ⟨0, .tau⟩, ⟨0, .wait⟩, ⟨2, .lock⟩, ⟨2, .qlen 0⟩, ⟨2, .tau⟩, ⟨2, .tau⟩, ⟨2, .broadcast⟩, ⟨2, .unlock⟩, ⟨0, .reacq⟩, ⟨0, .tau⟩, ⟨0, .wait⟩, ⟨1, .lock⟩, ⟨2, .exit⟩, ⟨1, .qlen 0⟩, ⟨1, .tau⟩, ⟨1, .tau⟩, ⟨1, .broadcast⟩, ⟨1, .unlock⟩, ⟨0, .reacq⟩, ⟨0, .tau⟩, ⟨0, .unlock⟩, ⟨0, .destroyCond⟩, ⟨0, .destroyMutex⟩, ⟨0, .qfree []⟩, ⟨0, .tfree⟩, ⟨1, .exit⟩, ⟨0, .freePool⟩, ⟨0, .newRet false⟩]
+
+/-- LAZY pool, `free(!wait_all)`: the running task submits a follow-up task while `wait_pool` is shutting the pool down; the
+call finds `shutdown` set (checked with the lock held) and returns -EPERM (D-06d) -/
+def demoNestedRefused : List Label :=
+  [⟨0, .newRet true⟩, ⟨1, .addCall 0 100⟩, ⟨1, .lock⟩, ⟨1, .tau⟩, ⟨1, .tau⟩, ⟨1, .tlen 0⟩, ⟨1, .tlen 0⟩, ⟨1, .create 2⟩, ⟨1, .tins 2⟩, ⟨1, .enq 0⟩, ⟨1, .signal none⟩, ⟨1, .unlock⟩, ⟨2, .lock⟩, ⟨2, .qlen 1⟩, ⟨1, .addRet 0⟩, ⟨2, .tau⟩, ⟨2, .deq 0⟩, ⟨0, .freeCall false⟩, ⟨2, .unlock⟩, ⟨2, .tau⟩, ⟨2, .taskStart 0 100⟩, ⟨0, .lock⟩, ⟨0, .tau⟩, ⟨0, .broadcast⟩, ⟨2, .addCall 128 0⟩, ⟨0, .unlock⟩, ⟨0, .tau⟩, ⟨2, .lock⟩, ⟨2, .tau⟩, ⟨2, .unlock⟩, ⟨2, .addRet (-1)⟩, ⟨2, .taskEnd 0⟩, ⟨2, .tau⟩, ⟨2, .lock⟩, ⟨2, .qlen 0⟩, ⟨2, .tau⟩, ⟨2, .tau⟩, ⟨2, .unlock⟩, ⟨2, .exit⟩, ⟨0, .join 2⟩, ⟨0, .tau⟩, ⟨0, .destroyCond⟩, ⟨0, .destroyMutex⟩, ⟨0, .qfree []⟩, ⟨0, .tfree⟩, ⟨0, .freePool⟩, ⟨0, .freeRet⟩]
+
+/-- LAZY pool of one thread, `free(!wait_all)`: the running task's follow-up task is accepted just before the shutdown starts
+and is discarded, never run, by `m_queue_free` -/
+def demoNestedAccepted : List Label :=
+  [⟨0, .newRet true⟩, ⟨1, .addCall 0 100⟩, ⟨1, .lock⟩, ⟨1, .tau⟩, ⟨1, .tau⟩, ⟨1, .tlen 0⟩, ⟨1, .tlen 0⟩, ⟨1, .create 2⟩, ⟨1, .tins 2⟩, ⟨1, .enq 0⟩, ⟨1, .signal none⟩, ⟨1, .unlock⟩, ⟨2, .lock⟩, ⟨1, .addRet 0⟩, ⟨0, .freeCall false⟩, ⟨2, .qlen 1⟩, ⟨2, .tau⟩, ⟨2, .deq 0⟩, ⟨2, .unlock⟩, ⟨2, .tau⟩, ⟨2, .taskStart 0 100⟩, ⟨2, .addCall 128 0⟩, ⟨2, .lock⟩, ⟨2, .tau⟩, ⟨2, .tau⟩, ⟨2, .tlen 1⟩, ⟨2, .tlen 1⟩, ⟨2, .enq 128⟩, ⟨2, .signal none⟩, ⟨2, .unlock⟩, ⟨0, .lock⟩, ⟨0, .tau⟩, ⟨0, .broadcast⟩, ⟨2, .addRet 0⟩, ⟨2, .taskEnd 0⟩, ⟨0, .unlock⟩, ⟨2, .tau⟩, ⟨2, .lock⟩, ⟨0, .tau⟩, ⟨2, .qlen 1⟩, ⟨2, .tau⟩, ⟨2, .tau⟩, ⟨2, .unlock⟩, ⟨2, .exit⟩, ⟨0, .join 2⟩, ⟨0, .tau⟩, ⟨0, .destroyCond⟩, ⟨0, .destroyMutex⟩, ⟨0, .qfree [128]⟩, ⟨0, .tfree⟩, ⟨0, .freePool⟩, ⟨0, .freeRet⟩]
 
 def summary (c : Cfg) (ls : List Label) (tasks : List TaskId) : Option (Pc × Bool × List (Nat × Bool × Bool)) :=
   (run (init c) ls).map fun s => (s.pc 0, s.poolFreed, tasks.map fun k => ((s.task k).execCount, (s.task k).finished, (s.task k).discarded))
@@ -276,13 +311,17 @@ example : summary ⟨2, true, false⟩ demoCreateFailAdd [0, 1] = some (.mDone, 
 example : okRun (init ⟨3, false, true⟩) demoCreateFailNew = true := by decide
 example : summary ⟨3, false, true⟩ demoCreateFailNew [] = some (.mDone, true, []) := by decide
 
+example : okRun (init ⟨2, true, false⟩) demoNestedRefused = true := by decide
+example : summary ⟨2, true, false⟩ demoNestedRefused [0, 128] = some (.mDone, true, [(1, true, false), (0, false, false)]) := by decide
+example : okRun (init ⟨1, true, false⟩) demoNestedAccepted = true := by decide
+example : summary ⟨1, true, false⟩ demoNestedAccepted [0, 128] = some (.mDone, true, [(1, true, false), (0, false, true)]) := by decide
+
 /-- the precondition is a real restriction: calling `free` while an `add` is in progress is refused … -/
 example : okRun (init ⟨1, true, false⟩) [⟨0, .newRet true⟩, ⟨1, .addCall 0 5⟩, ⟨0, .freeCall true⟩] = false := by decide
 /-- … and so is an `add` on a handle that `free` has already been called on -/
 example : okRun (init ⟨1, true, false⟩) [⟨0, .newRet true⟩, ⟨0, .freeCall true⟩, ⟨1, .addCall 0 5⟩] = false := by decide
 /-- the model has deadlocks-by-construction for broken variants only: a `signal` that wakes nobody is
 accepted only when nobody waits -/
-example : (run (init ⟨1, false, false⟩) [⟨0, .create 1⟩, ⟨0, .tins 1⟩, ⟨1, .lock⟩, ⟨1, .qlen 0⟩, ⟨1, .wait⟩, ⟨0, .newRet true⟩,
-    ⟨2, .addCall 0 5⟩, ⟨2, .tau⟩, ⟨2, .lock⟩, ⟨2, .enq 0⟩, ⟨2, .signal none⟩]).isNone = true := by decide
+example : (run (init ⟨1, false, false⟩) [⟨0, .create 1⟩, ⟨0, .tins 1⟩, ⟨1, .lock⟩, ⟨1, .qlen 0⟩, ⟨1, .wait⟩, ⟨0, .newRet true⟩, ⟨2, .addCall 0 5⟩, ⟨2, .lock⟩, ⟨2, .tau⟩, ⟨2, .enq 0⟩, ⟨2, .signal none⟩]).isNone = true := by decide
 
 end Lm.Props.C06
